@@ -262,11 +262,14 @@ Definition answer_len16 (a : answer) : Prop :=
 Definition answer_ok (guard_local : bool) (dict input : list N) (pos : N) (a : answer) : Prop :=
   answer_true dict input pos a /\ (guard_local = false -> answer_width a /\ answer_len16 a).
 
-(* one call of compress_sequential: enough answers, and every answer given at a visited position is good *)
-Definition seq_hyp (guard_local : bool) (dict : list N) (fuel : nat) (x : list N) (answers : list answer) : Prop :=
+(* one call of compress_sequential: enough answers (one per byte is always enough, surplus answers are never
+   looked at), and every answer given at a visited position is good *)
+Definition seq_hyp_g (guard_local guard_global : bool) (dict : list N) (fuel : nat) (x : list N)
+    (answers : list answer) : Prop :=
   (length x <= length answers)%nat /\
   Forall (fun pa => answer_ok guard_local dict x (fst pa) (snd pa))
-         (seq_trace (chosen guard_local true) fuel x 0 answers).
+         (seq_trace (chosen guard_local guard_global) fuel x 0 answers).
+Definition seq_hyp (guard_local : bool) := seq_hyp_g guard_local true.
 (* the same without the Far2Long length bound (for the refutation) *)
 Definition seq_hyp_nolen16 (dict : list N) (fuel : nat) (x : list N) (answers : list answer) : Prop :=
   (length x <= length answers)%nat /\
@@ -299,10 +302,12 @@ Definition answer_len16b (a : answer) : bool :=
   match a_local a with Some (d, len) => negb (d <=? 65535) || (len <=? 65535) | None => true end.
 Definition answer_okb (guard_local : bool) (dict input : list N) (pos : N) (a : answer) : bool :=
   answer_trueb dict input pos a && (guard_local || (answer_widthb a && answer_len16b a)).
-Definition seq_hypb (guard_local : bool) (dict : list N) (fuel : nat) (x : list N) (answers : list answer) : bool :=
+Definition seq_hypb_g (guard_local guard_global : bool) (dict : list N) (fuel : nat) (x : list N)
+    (answers : list answer) : bool :=
   (length x <=? length answers)%nat &&
   forallb (fun pa => answer_okb guard_local dict x (fst pa) (snd pa))
-          (seq_trace (chosen guard_local true) fuel x 0 answers).
+          (seq_trace (chosen guard_local guard_global) fuel x 0 answers).
+Definition seq_hypb (guard_local : bool) := seq_hypb_g guard_local true.
 Definition compress_hypb (guard_local : bool) (dict : list N) (parallel_threshold block_size : N)
     (enable_mt : bool) (mt_threshold : N) (fuel : nat) (x : list N) (answers : list (list answer)) : bool :=
   if blockwise parallel_threshold enable_mt mt_threshold x then
